@@ -65,6 +65,17 @@ func (c05) Gen(t *Tape, tier string, run int) interface{} {
 	}
 	c.Stmt = !big && t.Chance("work", 1, 4)
 	c.EOFD = t.Chance("work", 1, 3)
+	// Sequence lengths at powers of two and next to them for one small record
+	// in a third of the cases (block-wise fills and copies have their edge
+	// there); drawn after everything else so that the rest of a case keeps
+	// its meaning.
+	if len(c.Recs) > 0 && t.Chance("work", 1, 3) {
+		r := &c.Recs[t.Draw("work", len(c.Recs))]
+		if r.SeqLen < 40 {
+			r.SeqLen = t.Pick("work", 64, 128, 256, 512, 1024, 2048) + t.Pick("work", -1, 0, 0, 1)
+			r.HasQual = t.Bool("work")
+		}
+	}
 	return c
 }
 
